@@ -106,10 +106,6 @@ func (s *streamHTTP) writeMsg(c Codec, b []byte, contentType string) (int, error
 func (s *streamHTTP) SendMsg(m interface{}) error {
 	reply := m.(proto.Message)
 
-	if fRsp, ok := s.w.(http.Flusher); ok {
-		defer fRsp.Flush()
-	}
-
 	cur := reply.ProtoReflect()
 	for _, fd := range s.method.resp {
 		cur = cur.Mutable(fd).Message()
@@ -150,6 +146,10 @@ func (s *streamHTTP) SendMsg(m interface{}) error {
 
 	if _, err := s.writeMsg(c, b, contentType); err != nil {
 		return err
+	}
+	// Flush only what was written: a failed send must not commit a 200 status.
+	if fRsp, ok := s.w.(http.Flusher); ok {
+		fRsp.Flush()
 	}
 	if stats := s.opts.statsHandler; stats != nil {
 		// TODO: raw payload stats.
